@@ -192,7 +192,7 @@ def tie_free(inst):
 
 def run(res):
   thorough = res.tier == 'thorough'
-  count = 700 if thorough else 70
+  count = 700 if thorough else 240
   rng = random.Random(res.seed * 17 + 12)
   insts = mm.make_instances(res.seed + 12, 'C03', int(count * 1.4), nmax_geos=5)
   for k, i in enumerate(insts):
